@@ -159,5 +159,16 @@ func specs() []*spec {
 			Model:          []string{"Cluster.BlockAllocate / Cluster.Pin RPC service (recording, can fail)", "IPFSConnector.BlockPut RPC service per destination (per-destination block stores, per-(block,destination) fault)"},
 			Assumptions:    []string{"reference root = the same tree through the adder's importer on a plain in-memory DAG service, and for single files the go-unixfs importer called directly", "the file-tree/parameter dimension is input generation; the fault and multi-destination dimensions are what the simulator adds"},
 		},
+		{
+			ID: "C07", Harness: "clustersim", Level: "exploration",
+			Parts: []part{{Harness: "clustersim", Share: 0.6, Batch: 4}, {Harness: "crdtsim", Share: 0.4, Batch: 20}},
+			Batch: 4, QuickSecs: 50, ThoroughSecs: 600, PlanTimeoutS: 120,
+			DetSamples: 8, DetThreshold: 0.9,
+			RequiredProbes: []string{"walks", "refusals", "allowed_calls", "trust_changes", "endpoints_found", "untrusted_publisher_checked"},
+			Rule:           "part 1 (clustersim): a real Cluster with a real Raft or CRDT consensus component (trust config: Raft | CRDT explicit list | empty list | trust-all) is called over libp2p by real gorpc clients; every RPC endpoint found by reflection over the five service types x {self, peer1, peer2} is called in a plan-chosen order (a complete walk of the table, repeated after plan-chosen Trust/Distrust calls) and each outcome is compared with what the statement dictates (untrusted: only identity, version and the join handshake; local-only endpoints refused to every remote caller; self never refused; refused means no effect on tracker, IPFS, blocks or pinset). part 2 (crdtsim): 2-4 CRDT replicas one of which nobody trusts publishes pins and unpins under partitions and latency skews; its updates must never show up at a replica that never trusted it. Non-trivial = >=1 call; distinct = distinct canonical trace digest.",
+			Real:           []string{"ipfscluster.Cluster RPC server, authorisation function and default RPC policy", "consensus/raft and consensus/crdt IsTrustedPeer/Trust/Distrust, crdt pubsub topic validator", "go-libp2p-gorpc client/server over libp2p basic hosts on mocknet", "go-libp2p-pubsub (signed), go-ds-crdt"},
+			Model:          []string{"tracker, IPFS connector, monitor, informer behind the target (recording)", "specification table of peer-to-peer vs local-only endpoints written from the statement (harness/clustersim/c07.go)"},
+			Assumptions:    []string{"an endpoint present in the code but absent from the specification table stops the check with exit 2 (specification incomplete)", "a replica that some trusted replica trusts is vouched for: its updates are re-published by that replica, so the pubsub clause is judged only when nobody ever trusted the publisher"},
+		},
 	}
 }
